@@ -48,8 +48,23 @@ def triple_record(av, bv, cv, x, dts):
         wide = np.dtype(max((np.dtype(x) for x in dts), key=lambda t: (t.itemsize, t.kind == 'u')))
         if all(int(v) <= int(np.iinfo(wide).max) for v in list(av) + list(bv) + list(cv)):
             coll = SignatureArray([B.astype(wide), C.astype(wide), A.astype(wide), B.astype(wide)], KmerSpec(16, 'ATG'))
+            # every second record holds the collection as a zero-copy WINDOW into a larger buffer (bounds[0] != 0)
+            if (len(av) + len(bv) + len(cv)) % 2:
+                pad = [np.asarray([1, 2, 3], dtype=wide), np.asarray([4], dtype=wide)]
+                full = SignatureArray(pad + [coll[i] for i in range(4)] + pad, KmerSpec(16, 'ATG'))
+                coll = SignatureArray.from_arrays(full.values, full.bounds[2:7], KmerSpec(16, 'ATG'))
+                whole = jaccarddist_matrix([A], coll)[0]                               # all columns, no selection: B, C, A, B
+                chunked = jaccarddist_matrix([A], coll, chunksize=3)[0]
+                if [f32_fields(x) for x in whole] != [f32_fields(x) for x in chunked] or f32_fields(whole[2]) != f32_fields(0.0):
+                    d['maa'] = dict(f32_fields(whole[2]), bad='window collection: plain and chunked tables disagree / d(A, A) != 0')
             row = jaccarddist_matrix([A], coll, ref_indices=[0, 2, 1, 3])[0]            # columns: B, A, C, B
-            d['mab'] = f32_fields(row[0]); d['maa'] = f32_fields(row[1]); d['mac'] = f32_fields(row[2])
+            d['mab'] = f32_fields(row[0]); d['mac'] = f32_fields(row[2])
+            if not d['maa'].get('bad'):
+                d['maa'] = f32_fields(row[1])
+            if coll.bounds[0] != 0:
+                wrow = jaccarddist_matrix([A], coll)[0]
+                if f32_fields(wrow[0]) != d['mab'] or f32_fields(wrow[1]) != d['mac']:
+                    d['mab'] = f32_fields(wrow[0]); d['mac'] = f32_fields(wrow[1])
             sq = jaccarddist_pairwise(coll, indices=[3, 0, 2, 1])                     # rows/columns: B, B, A, C
             d['mbc'] = f32_fields(sq[1][3])
             # more selected columns than stored references (repeats), computed chunk by chunk into a caller-supplied array
